@@ -26,16 +26,19 @@ GATHER = "ite"      # "ite" | "fork"
 SORT = "ite"        # "ite" | "fork"   (used when order is not entailed by the path condition)
 SEARCH = "auto"     # "auto" (count if sortedness is entailed, else bisect) | "bisect"
 FORK_CAP = 64
+FOLD = False        # determinacy folding of searchsorted counts (replace a term by its constant when the PC entails one)
 
 
-def set_policy(gather=None, sort=None, search=None):
-    global GATHER, SORT, SEARCH
+def set_policy(gather=None, sort=None, search=None, fold=None):
+    global GATHER, SORT, SEARCH, FOLD
     if gather:
         GATHER = gather
     if sort:
         SORT = sort
     if search:
         SEARCH = search
+    if fold is not None:
+        FOLD = bool(fold)
 
 
 # ---- dtype ---------------------------------------------------------------------------------
@@ -1658,7 +1661,8 @@ def searchsorted(a, v, side="left", sorter=None):
             return len(cells)
         if use_count:
             op = "lt" if side == "left" else "le"
-            return _sum_cells([ite(r_cmp(op, c, key), 1, 0) for c in cells]) if cells else 0
+            cnt = _sum_cells([ite(r_cmp(op, c, key), 1, 0) for c in cells]) if cells else 0
+            return fold(cnt) if FOLD and is_sym(cnt) else cnt
         return _bisect(cells, key, side)
 
     return _ret([one(k) for k in v_.data], v_.shape, "i")
